@@ -66,7 +66,7 @@ theorem ok_wrap_true (P : Powers) (p : PExpr) (m f : Nat) (h : Ok P p 0 0) : Ok 
 /-- The local bracket rule produces admissible parentheses (outside the exception on right operands). -/
 theorem annot_ok (P : Powers) (exc : Nat → Nat → Bool)
     (hpos : ∀ k, 0 < P.bp k) (hexc : ∀ K k, exc K k = true → P.bp K ≤ P.bp k) :
-    ∀ (e : Expr) (m f : Nat), hasExc exc e = false → Adm P e m f → Ok P (annot P exc e) m f := by
+    ∀ (e : Expr) (m f : Nat), hasExc P exc e = false → Adm P e m f → Ok P (annot P exc e) m f := by
   intro e
   induction e with
   | atom n => intro m f _ _; simp [annot, Ok]
@@ -78,7 +78,7 @@ theorem annot_ok (P : Powers) (exc : Nat → Nat → Bool)
     simp only [annot, Ok]
     refine ⟨hm, hf, ?_, ?_⟩
     · -- left operand
-      cases hb : nb P exc (.bin k) l.head 0 with
+      cases hb : nb P exc (.bin k) l.head 0 (chainPure P exc k (P.bp k) l) with
       | true => exact ok_wrap_true P _ _ _ (ihl 0 0 hnl (adm_zero P hpos l))
       | false =>
         simp only [wrap, Bool.false_eq_true, if_false]
@@ -88,17 +88,22 @@ theorem annot_ok (P : Powers) (exc : Nat → Nat → Bool)
         | bin k2 l2 r2 =>
           simp only [Expr.head, nb] at hb
           have h2 := hpos k2
-          by_cases hx : exc k k2 = true
-          · have := hexc k k2 hx
+          by_cases hx : (exc k k2 && chainPure P exc k (P.bp k) (Expr.bin k2 l2 r2)) = true
+          · have hx1 : exc k k2 = true := by
+              simp only [Bool.and_eq_true] at hx; exact hx.1
+            have := hexc k k2 hx1
             exact ⟨by omega, this⟩
           · simp only [hx, Bool.false_eq_true, if_false, Bool.or_eq_false_iff, decide_eq_false_iff_not,
               Bool.and_eq_false_iff] at hb
             exact ⟨by omega, by omega⟩
         | pre k2 x2 =>
-          simp only [Expr.head, nb, decide_eq_false_iff_not] at hb
-          simp only [Adm, Powers.pbp]; omega
+          simp only [Expr.head, nb] at hb
+          by_cases hs : P.stmt k2 = true
+          · simp [hs] at hb
+          · simp only [hs, Bool.false_eq_true, if_false, decide_eq_false_iff_not] at hb
+            simp only [Adm, Powers.pbp, hs, Bool.false_eq_true, if_false]; omega
     · -- right operand
-      cases hb : nb P exc (.bin k) r.head 1 with
+      cases hb : nb P exc (.bin k) r.head 1 (chainPure P exc k (P.bp k) r) with
       | true => exact ok_wrap_true P _ _ _ (ihr 0 0 hnr (adm_zero P hpos r))
       | false =>
         simp only [wrap, Bool.false_eq_true, if_false]
@@ -116,15 +121,18 @@ theorem annot_ok (P : Powers) (exc : Nat → Nat → Bool)
             · exact absurd (by omega : 1 > 0) h2
           exact ⟨by omega, by omega⟩
         | pre k2 x2 =>
-          simp only [Expr.head, nb, decide_eq_false_iff_not] at hb
-          simp only [Adm, Powers.pbp]; omega
+          simp only [Expr.head, nb] at hb
+          by_cases hs : P.stmt k2 = true
+          · simp [hs] at hb
+          · simp only [hs, Bool.false_eq_true, if_false, decide_eq_false_iff_not] at hb
+            simp only [Adm, Powers.pbp, hs, Bool.false_eq_true, if_false]; omega
   | pre k x ih =>
     intro m f hne hadm
     simp only [hasExc] at hne
     simp only [Adm] at hadm
     simp only [annot, Ok]
     refine ⟨hadm, ?_⟩
-    cases hb : nb P exc (.pre k) x.head 0 with
+    cases hb : nb P exc (.pre k) x.head 0 true with
     | true => exact ok_wrap_true P _ _ _ (ih 0 0 hne (adm_zero P hpos x))
     | false =>
       simp only [wrap, Bool.false_eq_true, if_false]
@@ -132,13 +140,23 @@ theorem annot_ok (P : Powers) (exc : Nat → Nat → Bool)
       cases x with
       | atom n => trivial
       | bin k2 l2 r2 =>
-        simp only [Expr.head, nb, decide_eq_false_iff_not] at hb
-        simp only [Powers.pbp] at hadm
+        simp only [Expr.head, nb] at hb
         show P.pbp k < P.bp k2 ∧ f ≤ P.bp k2
-        simp only [Powers.pbp]; omega
+        have h2 := hpos k2
+        by_cases hs : P.stmt k = true
+        · simp only [Powers.pbp, hs, if_true] at hadm ⊢; omega
+        · simp only [hs, Bool.false_eq_true, if_false, decide_eq_false_iff_not] at hb
+          simp only [Powers.pbp, hs, Bool.false_eq_true, if_false] at hadm ⊢; omega
       | pre k2 x2 =>
-        simp only [Expr.head, nb, decide_eq_false_iff_not] at hb
-        simp only [Adm, Powers.pbp] at hadm ⊢; omega
+        simp only [Expr.head, nb] at hb
+        show f ≤ P.pbp k2
+        by_cases hs : P.stmt k = true
+        · simp only [Powers.pbp, hs, if_true] at hadm; omega
+        · simp only [hs, Bool.false_eq_true, if_false] at hb
+          by_cases hs2 : P.stmt k2 = true
+          · simp [hs2] at hb
+          · simp only [hs2, Bool.false_eq_true, if_false, decide_eq_false_iff_not] at hb
+            simp only [Powers.pbp, hs, hs2, Bool.false_eq_true, if_false] at hadm ⊢; omega
 
 /-! ### relational parser ⇒ fuel-indexed parser -/
 
